@@ -106,12 +106,19 @@ def gen_one(rng, i, tier):
         neg = neg[:1]
     # score arrays of a narrower dtype (float32 model outputs, integer scores): supplied thresholds and the thresholds
     # assigned to supplied targets are float64 numbers that need not be representable in the scores' dtype
-    dtype = rng.choice(["f8"] * 7 + ["f4", "f4", "i8"])
+    dtype = rng.choice(["f8"] * 7 + ["f4", "f4", "i8", "u1", "u2"])
     if dtype == "f4":
         pos, neg = [float(np.float32(x)) for x in pos], [float(np.float32(x)) for x in neg]
     elif dtype == "i8":
         k_ = rng.choice([1, 4, 16])
         pos, neg = [float(round(x * k_)) for x in pos], [float(round(x * k_)) for x in neg]
+    elif dtype in ("u1", "u2"):
+        # unsigned scores (quantised outputs) INCLUDING 0: ranks of the values, so ties and order type are kept
+        vals = sorted(set(pos + neg))
+        if 3 * len(vals) > 250:
+            dtype = "u2"
+        rank = {v: float(3 * k) for k, v in enumerate(vals)}
+        pos, neg = [rank[x] for x in pos], [rank[x] for x in neg]
     ep, en = gen.easy_counts(rng, stream, len(pos), len(neg))
     sc, ec = rng.choice(gen.CFGS)
     xaxis = rng.choice(BAD_AXES) if rng.random() < 0.04 else rng.choice(AXES)
@@ -176,7 +183,7 @@ def build(inp) -> Case:
         if inp[k] is not None:
             inp[k] = [float(common.unjson_num(x)) for x in inp[k]]
     pos, neg, xaxis, nb = inp["pos"], inp["neg"], inp["xaxis"], inp["nb"]
-    npdt = {"f8": np.float64, "f4": np.float32, "i8": np.int64}[inp.get("dtype", "f8")]
+    npdt = {"f8": np.float64, "f4": np.float32, "i8": np.int64, "u1": np.uint8, "u2": np.uint16}[inp.get("dtype", "f8")]
     if npdt is np.float64:
         s = Scores(pos, neg, nb_easy_pos=inp["ep"], nb_easy_neg=inp["en"], score_class=inp["sc"],
                    equal_class=inp["ec"])
